@@ -222,7 +222,7 @@ func kindChildren(w *World, root *FuncInfo, targets map[*types.Func]bool) map[st
 	var ts *ast.TypeSwitchStmt
 	ast.Inspect(root.Decl.Body, func(x ast.Node) bool {
 		s, ok := x.(*ast.TypeSwitchStmt)
-		if !ok || ts != nil {
+		if !ok || (ts != nil && len(s.Body.List) <= len(ts.Body.List)) {
 			return true
 		}
 		var sx ast.Expr
